@@ -18,7 +18,7 @@ add("C03", "exploration",
     "trusted: reference decoder refmodel::ref_fixed and the IANA keyword table mc/src/iana.rs; byte values beyond the walking-byte/boundary alphabets are not covered",
     "bounded-exhaustive input enumeration vs reference decoder (explicit-state, stateless)", "DESIGN.md §5 C03", "E-ENUM")
 add("C06", "model_checking",
-    "Explicit-state model checking of the real template caches: stateright BFS to the FIXPOINT of the reachable graph whose states are (canonical content of the real caches of every parser instance, reference latest-wins cache) and whose transitions apply one action of an about 70-action-per-instance alphabet (T/OT/D/TD/DT/[T++D] for V9 and IPFIX over two or three ids and two or three layouts, the same from another exporter (other source id / observation domain), multi-record template flowsets incl. one id defined twice, flowsets/messages truncated inside their first or second template record, ill-formed and withdrawal-shaped template records, record-less data sets, V5, V7, garbage, unknown version, truncated and incomplete templates, mixed buffer) with the real parse_bytes, on two instances with different allowed sets. Every transition checks: decode = reference under the latest definition; caches = reference prediction (so inert input changes nothing); no eviction; instance and protocol isolation; buffer = one-packet-per-call delivery; and soundness of state merging (parser rebuilt from the snapshot vs parsers that replayed the full interleaved history). Complemented by (a) a bounded exploration WITHOUT state merging - every history of <=3 (thorough 4) calls over the single-id two-instance alphabet, last call judged against the reference - which sees state kept outside the caches, and (b) an explicit never-evicted-at-scale enumeration (up to 65 279 distinct ids).",
+    "Explicit-state model checking of the real template caches: stateright BFS to the FIXPOINT of the reachable graph whose states are (canonical content of the real caches of every parser instance, reference latest-wins cache) and whose transitions apply one action of an about 70-action-per-instance alphabet (T/OT/D/TD/DT/[T++D] for V9 and IPFIX over two or three ids and two or three layouts, the same from another exporter (other source id / observation domain), multi-record template flowsets incl. one id defined twice, flowsets/messages truncated inside their first or second template record, sets with unused or reserved ids whose body is a well-formed template record, ill-formed and withdrawal-shaped template records, record-less data sets, V5, V7, garbage, unknown version, truncated and incomplete templates, mixed buffer) with the real parse_bytes, on two instances with different allowed sets. Every transition checks: decode = reference under the latest definition; caches = reference prediction (so inert input changes nothing); no eviction; instance and protocol isolation; buffer = one-packet-per-call delivery; and soundness of state merging (parser rebuilt from the snapshot vs parsers that replayed the full interleaved history). Complemented by (a) a bounded exploration WITHOUT state merging - every history of <=3 (thorough 4) calls over the single-id two-instance alphabet, last call judged against the reference - which sees state kept outside the caches, and (b) an explicit never-evicted-at-scale enumeration (up to 65 279 distinct ids).",
     "closed under the stated alphabet only; trusted: refmodel.rs, explore.rs, stateright's fingerprint deduplication",
     "explicit-state model checking of the implementation (stateright BFS to fixpoint) against a reference model", "DESIGN.md §5 C06", "E-HIST")
 add("C07", "model_checking",
@@ -65,7 +65,7 @@ add("C14", "fault_enumeration",
     "exhaustive fault (truncation point) enumeration on the real parser", "DESIGN.md §5 C14", "E-ENUM")
 
 add("C15", "model_checking",
-    "Every point of the scale ladder (every structural repetition the formats allow - records per set, sets per message, template records per set, fields per template, packets per buffer, variable-length lengths, zero-length-field templates, announced counts over short bodies, the V9 retry loop, and n = 1..32 768 already-cached definitions of either kind followed by one fixed maximal definition or data buffer - at n in {1..16, 24, 32, ... , max-1, max} up to the datagram limit) and every case of the V9/IPFIX grammar products is executed in an isolated worker whose counting global allocator measures bytes requested, peak live and bytes live at return; three fixed laws (peak, output, total/backstop) are judged per evaluation, a growth law per ladder rung (allocation per byte of input+output may not grow more than 3x with n) and a conservative wall-time growth law confirmed by isolated re-measurement.",
+    "Every point of the scale ladder (every structural repetition the formats allow - records per set, sets per message, template records per set, fields per template, packets per buffer, variable-length lengths, zero-length-field templates, announced counts over short bodies, the V9 retry loop, templates whose fields under-declare their length, and n = 1..32 768 already-cached definitions of either kind followed by one fixed maximal definition or data buffer - at n in {1..16, 24, 32, ... , max-1, max} up to the datagram limit) and every case of the V9/IPFIX grammar products is executed in an isolated worker whose counting global allocator measures bytes requested, peak live and bytes live at return; three fixed laws (peak, output, total/backstop) are judged per evaluation, a growth law per ladder rung (allocation beyond 64 bytes per byte of cached template, per byte of input+output, may not grow more than 3x with n) and a conservative wall-time growth law confirmed by isolated re-measurement.",
     "the constants of the laws are chosen with head-room over the measured benign maxima (reported in the evidence); coverage is the ladder and the grammar product, not all buffers; trusted: alloc.rs, sweep.rs",
     "bounded-exhaustive execution sweep with allocation accounting (stateless exploration of real code)", "DESIGN.md §5 C15", "E-SWEEP")
 add("C16", "model_checking",
